@@ -286,6 +286,16 @@ func Bytes(x []int) []byte {
 type Case struct {
 	B   []int  `json:"b"`
 	Src string `json:"src,omitempty"`
+	Pad int    `json:"pad,omitempty"` // the real input is Pad spaces followed by B (keeps long, refill-aligned inputs cheap to judge)
+}
+
+// Input returns the bytes handed to the front-ends: Pad spaces followed by B.
+func (c Case) Input() []byte {
+	in := make([]byte, 0, c.Pad+len(c.B))
+	for i := 0; i < c.Pad; i++ {
+		in = append(in, ' ')
+	}
+	return append(in, Bytes(c.B)...)
 }
 
 // MarshalLine encodes v as one ndjson line.
